@@ -43,6 +43,7 @@ type RaftGroup struct {
 	snapshotFn        SnapshotFn
 
 	raft          etcdRaft.Node
+	runDone       chan struct{}
 	restarted     bool
 	raftConfState *raftpb.ConfState
 	raftLeaderId  uint64
@@ -140,13 +141,23 @@ func (this *RaftGroup) Start() error {
 			return err
 		}
 	}
-	go this.run()
+	this.runDone = make(chan struct{})
+	go func() {
+		defer close(this.runDone)
+		this.run()
+	}()
 	return nil
 }
 
 func (this *RaftGroup) Stop() {
 	this.raft.Stop()
 	this.ctxCancel()
+	if this.runDone != nil {
+		// The ready loop may be in the middle of a Ready (sending, saving,
+		// applying). Callers delete the group's log store next: wait for the loop
+		// to be gone, or its Save hits a deleted store and the node dies.
+		<-this.runDone
+	}
 
 	if err := this.transport.removeGroup(this.id); err != nil {
 		this.log.Error(err)
